@@ -577,6 +577,75 @@ def run(chk):
     rule_array_dimension(chk)
     rule_template_value_lookup(chk)
     rule_sizeof(chk)
+    rule_template_defaults(chk)
+
+
+def rule_template_defaults(chk):
+    """Default template arguments are constant expressions evaluated where the EARLIER parameters are visible:
+    Context::ensure_struct_template is walked for `template<typename T, uint N, uint M = <default>, typename U = <default>>`
+    instantiated with two and with three arguments (scope handling, the default evaluators and the name registrations are
+    recording stand-ins). When a default is evaluated, the instantiation scope is open and every earlier parameter's name
+    is bound in it - `template<uint N, uint M = N * 2>` with N = 2 means M = 4, whatever `N` means outside."""
+    import interp as I
+    f = chk.facts
+    fn = f.fn("ensure_struct_template", TY)
+    if not fn:
+        chk.note("C13.template-defaults: ensure_struct_template not found; not decided")
+        return
+    ok = lambda v: I.Enum("Result", "Ok", {"0": v})
+    opt = lambda v: I.Enum("Option", "None") if v is None else I.Enum("Option", "Some", {"0": v})
+    loc = lambda v: I.Enum("Located", None, {"node": v, "location": I.Opaque("location")})
+    tid = lambda n_: I.Enum("TypeId", None, {"0": n_})
+    tparam = lambda nm, d=None: I.Enum("TemplateParam", "Type", {"0": I.Enum("TemplateTypeParam", None, {"name": opt(loc(nm)), "default": opt(d)})})
+    vparam = lambda nm, d=None: I.Enum("TemplateParam", "Value", {"0": I.Enum("TemplateValueParam", None, {"value_type": I.Opaque("type"), "name": opt(loc(nm)), "default": opt(d)})})
+    params = [tparam("T"), vparam("N"), vparam("M", I.Enum("Expression", "Tagged", {"tag": "default of M"})), tparam("U", I.Enum("Type", "Tagged", {"tag": "default of U"}))]
+
+    def deref(v):
+        return v.get() if isinstance(v, I.Ref) else v
+    bad = None
+    n = 0
+    for nargs in (2, 3):
+        events = []
+        bound = []
+        depth = [0]
+        name_of = lambda a: (deref(a[1]).fields["node"] if isinstance(deref(a[1]), I.Enum) else deref(a[1]))
+        ext = {"push_scope_with_name": lambda a: (depth.__setitem__(0, depth[0] + 1), events.append(("open",)), 9)[2], "pop_scope": lambda a: (depth.__setitem__(0, depth[0] - 1), events.append(("close",)), ())[2],
+               "register_typedef": lambda a: (bound.append(name_of(a)), events.append(("bind", name_of(a), depth[0])), ok(()))[2],
+               "register_valuedef": lambda a: (bound.append(name_of(a)), events.append(("bind", name_of(a), depth[0])), ok(()))[2],
+               "parse_type_for_usage": lambda a: (events.append(("default", "U", tuple(bound), depth[0])), ok(tid(8)))[1],
+               "parse_and_evaluate_constant_expression": lambda a: (events.append(("default", "M", tuple(bound), depth[0])), ok(I.Enum("RestrictedConstant", "UInt32", {"0": 4})))[1],
+               "build_struct_from_template": lambda a: ok(I.Enum("StructId", None, {"0": 1})), "TypeRegistry::register_type": lambda a: tid(50), "TypeRegistry::combine_modifier": lambda a: tid(50),
+               "RestrictedConstant::unrestrict": lambda a: I.Enum("Constant", "UInt32", {"0": 4}), "unrestrict": lambda a: I.Enum("Constant", "UInt32", {"0": 4})}
+        sdef = I.Enum("StructDefinition", None, {"name": loc("S"), "base_types": [], "template_params": I.Enum("TemplateParamList", None, {"0": list(params)}), "members": []})
+        ctx = I.Enum("Context", None, {"struct_template_data": [I.Enum("StructTemplateData", None, {"scope": 0, "instantiations": I.HMap()})], "current_scope": 5,
+                                       "module": I.Enum("Module", None, {"struct_template_registry": [I.Enum("StructTemplateDefinition", None, {"id": I.Opaque("id"), "type_id": tid(40), "name": loc("S"), "ast": sdef})], "type_registry": I.Opaque("type registry")})})
+        args = [I.Enum("TypeOrConstant", "Type", {"0": tid(4)}), I.Enum("TypeOrConstant", "Constant", {"0": I.Enum("RestrictedConstant", "UInt32", {"0": 2})}), I.Enum("TypeOrConstant", "Constant", {"0": I.Enum("RestrictedConstant", "UInt32", {"0": 7})})][:nargs]
+        try:
+            r = I.Interp(f, max_depth=8, extern=ext).apply(fn, [ctx, I.Enum("StructTemplateId", None, {"0": 0}), args, I.Opaque("modifier"), I.Opaque("location")])
+        except I.Unknown as e:
+            if "panicking" in str(e):
+                bad = bad or "ensure_struct_template aborts for S<T, 2%s> (%s)" % (", 7" if nargs == 3 else "", str(e)[:60])
+                n += 1
+                continue
+            chk.unreadable("C13.template-defaults/scope", "ensure_struct_template on a model struct template", str(e)[:100], where(fn))
+            return
+        n += 1
+        if not (isinstance(r, I.Enum) and r.variant == "Ok"):
+            bad = bad or "S<T, 2%s> is refused" % (", 7" if nargs == 3 else "")
+            continue
+        earlier = {"M": ("T", "N"), "U": ("T", "N", "M")}
+        for ev in events:
+            if ev[0] == "default":
+                missing = [x for x in earlier[ev[1]] if x not in ev[2]]
+                if (missing or ev[3] < 1) and bad is None:
+                    bad = "the default of template parameter %s is evaluated %s: `template<uint N, uint M = N * 2>` reads another N than the one just supplied (or none)" % (
+                        ev[1], "before the names %s are bound" % missing if missing else "outside the instantiation scope")
+            if ev[0] == "bind" and ev[2] < 1 and bad is None:
+                bad = "template parameter %s is bound outside the instantiation scope: the name leaks into the scope the template was defined in" % ev[1]
+        want_defaults = ["M", "U"] if nargs == 2 else ["U"]
+        if [e[1] for e in events if e[0] == "default"] != want_defaults and bad is None:
+            bad = "S<T, 2%s> evaluates the defaults of %s, must be %s" % (", 7" if nargs == 3 else "", [e[1] for e in events if e[0] == "default"], want_defaults)
+    chk.ob("C13.template-defaults/scope", bad is None, bad or "defaults are evaluated inside the instantiation scope with every earlier parameter bound (%d instantiations)" % n, where(fn), sample={"instantiations": n})
 
 
 def rule_sizeof(chk):
